@@ -134,6 +134,7 @@ structure St where
   evSet      : Node → Bool := fun _ => false           -- events (never cleared)
   opened     : Node → Bool := fun _ => false           -- _opened_oneof_children
   additional : Node → Option Val := fun _ => none      -- _additional_data
+  stale      : List Node := []                         -- invalidated_nodes: out of date since a restart, not hidden yet
   invCount   : Node → Nat := fun _ => 0                -- number of on_node_start per node
   hideCount  : Node → Nat := fun _ => 0                -- ghost: how often `hide_last_execution` hit the node
   badOrd     : Bool := false                           -- ghost: the oracle supplied a launch order `validOrder` rejects
@@ -154,6 +155,16 @@ def St.hide (s : St) (ns : List Node) : St :=                                   
            procHid := fun x => if ns.contains x then true else s.procHid x,
            hideCount := fun x => if ns.contains x then s.hideCount x + 1 else s.hideCount x,
            sw := fun x => if ns.contains x then none else s.sw x }    -- (fix: a restart forgets the decisions too)
+
+/-- `invalidate_last_execution`: a restart marks the nodes; they keep their results until somebody needs them again -/
+def St.invalidate (s : St) (ns : List Node) : St := { s with stale := ns ++ s.stale }
+/-- `hide_invalidated_execution(dag)`: the invalidated nodes of a DAG that is about to run are hidden (to be executed
+again) and are no longer marked -/
+def St.refresh (s : St) (ns : List Node) : St :=
+  if s.stale.isEmpty then s
+  else
+    let h := ns.filter s.stale.contains
+    { (s.hide h) with stale := s.stale.filter fun x => !h.contains x }
 
 /-- named single-field updates (one frame lemma each in `Proofs/EngBasic.lean`) -/
 def St.setSw (s : St) (n : Node) (lc : Label × Node) : St := { s with sw := upd s.sw n (some lc) }
@@ -429,6 +440,7 @@ def dagLaunch (c : Ctx) (d : DagRef) (below : List Frame) : St → List Obs → 
 
 /-- `_run_dag` entry (manager.py 474–485) -/
 def dagInit (c : Ctx) (s : St) (obs : List Obs) (d : DagRef) (below : List Frame) : Out :=
+  let s := s.refresh d.nodes          -- (fix: nodes invalidated by a restart are executed again when a DAG needs them)
   let obs := obs ++ [.topo c.ord]
   let obs := if validOrder c.P s d c.ord then obs else obs ++ [.badOracle]
   let s := s.noteOrder (validOrder c.P s d c.ord)
@@ -457,8 +469,15 @@ def nodeFinish (c : Ctx) (s : St) (obs : List Obs) (d : DagRef) (n : Node) (belo
   retTo c (nodeFinally c.P s d n true) obs below .none
 
 /-- `_run_node`: a `Recurrent` result starts the task of the recurrent subgraph (manager.py 656–664) -/
-def recSpawn (s : St) (d : DagRef) (n : Node) (v : Val) : St :=
-  if v.isRecur then (spawn s [.recStart d n v] (.recur n)).1 else s
+def recSpawns (P : Program) (s : St) (n : Node) (v : Val) : Bool :=
+  -- (fix: the subgraph that is being restarted already takes the new result itself; a task created for it now could
+  -- start after that one has finished and would restart the subgraph all over again)
+  v.isRecur && !(match (P.g.attr n).startNode with
+    | some start => s.active.contains (start, n)
+    | none => false)
+
+def recSpawn (P : Program) (s : St) (d : DagRef) (n : Node) (v : Val) : St :=
+  if recSpawns P s n v then (spawn s [.recStart d n v] (.recur n)).1 else s
 
 /-- `_run_node`: only the task that executed the node stores the result; one that merely waited for it does not
 write back what it read (it may be a hidden result, i.e. `None`) -/
@@ -480,8 +499,8 @@ def nodeCbRaiseInTry (c : Ctx) (s : St) (obs : List Obs) (d : DagRef) (n : Node)
 def nodePost (c : Ctx) (s : St) (obs : List Obs) (d : DagRef) (n : Node) (below : List Frame) (v : Val)
     (executedHere : Bool := true) : Out :=
   -- a `Recurrent` result: start the recurrent subgraph, do not unlock the descendants
-  let obs := if v.isRecur then obs ++ [.spawn s.tasks.length (.recur n)] else obs
-  let s := storeIf (recSpawn s d n v) executedHere n v
+  let obs := if recSpawns c.P s n v then obs ++ [.spawn s.tasks.length (.recur n)] else obs
+  let s := storeIf (recSpawn c.P s d n v) executedHere n v
   -- fix c29fd0e: only a real value is saved, and only by the task that executed the node
   if executedHere && !v.isRecur && !v.isExc then
     cbCall c .save n s (obs ++ [.save n v]) (fun j => .node d n false (.cbSave j) :: below)
@@ -589,6 +608,8 @@ def oneofTry (c : Ctx) (d : DagRef) (head : Node) (below : List Frame) : St → 
     match reducedRef c.P s c.P.g.input cand false true true with
     | none => raiseOut c s obs below (.exc ⟨"Other:NodeNotFound", 0, 0, 0⟩)
     | some sub =>
+      -- (fix: a result from before a restart must not be taken for the result of the candidate)
+      let s := s.refresh sub.nodes
       let obs := obs ++ [.spawn s.tasks.length .dag]
       let s := (spawn s [.dagInit sub] .dag).1
       if oneofDone s cand sub then
@@ -657,7 +678,7 @@ def recIter (c : Ctx) (s : St) (obs : List Obs) (d : DagRef) (n start : Node) (g
   if k < maxIter then
     let data := match r with | .recur x => x | _ => .none
     let s := s.setAdditional start data
-    let s := s.hide (recScopeNodes c.P start n d.isOneof)     -- (fix: everything between start and dest, not only the DAG)
+    let s := s.invalidate (recScopeNodes c.P start n d.isOneof)   -- (fix: everything between start and dest)
     dagInit c s obs g (.recIterRet d n start g k :: below)
   else
     if r.isRecur && (c.P.cfg n).useDefault then
@@ -682,7 +703,7 @@ def recStart (c : Ctx) (s : St) (obs : List Obs) (d : DagRef) (n : Node) (r : Va
       match recGraph c.P start n d.isOneof with
       | none => raiseOut c s obs below (.exc ⟨"Other:NodeNotFound", 0, 0, 0⟩)
       | some b =>
-        match recLaunch c.P s b n with
+        match recLaunch c.P s { b with isNested := d.isNested } n with      -- (fix: the scope keeps is_nested_oneof)
         | none => raiseOut c s obs below (.exc ⟨"Other:NodeNotFound", 0, 0, 0⟩)
         | some g => recIter c s obs d n start g 0 r below
 
